@@ -77,6 +77,10 @@ func Request(method, target string, form url.Values, basicUser, basicPass string
 func FormAction(body string) (string, bool)            { stub(); return "", false }
 func FormField(body string, name string) (string, bool) { stub(); return "", false }
 
+// JSONDoc returns a well-formed JSON document of arbitrary shape (null, bool, integral number below 2^53,
+// string, array of such values, empty object); json.Unmarshal of it into `any` yields that value.
+func JSONDoc(tag string) []byte { stub(); return nil }
+
 // Debugf records a diagnostic line in native runs; ignored symbolically.
 func Debugf(format string, args ...any) { stub() }
 
